@@ -133,6 +133,9 @@ func alphabet() []input {
 	a = append(a, input{name: "new+id", kind: "session", state: "new", id: "wrong"})
 	a = append(a, input{name: "new+uuid-id", kind: "session", state: "new", id: "uuid"})
 	a = append(a, input{name: "new(enc=none,comp=none)", kind: "session", state: "new", enc: "none", comp: "none"})
+	// the option choice sent in an envelope whose state is still (or again) "new"
+	a = append(a, input{name: "new+echo-id(enc=none,comp=none)", kind: "session", state: "new", id: "echo", enc: "none", comp: "none"})
+	a = append(a, input{name: "new+echo-id(enc=tls,comp=none)", kind: "session", state: "new", id: "echo", enc: "tls", comp: "none"})
 	for _, p := range [][2]string{{"none", "none"}, {"tls", "none"}, {"none", "gzip"}, {"zzz", "none"}} {
 		a = append(a, input{name: "neg(" + p[0] + "," + p[1] + ")", kind: "session", state: "negotiating", id: "echo", enc: p[0], comp: p[1]})
 	}
